@@ -238,6 +238,31 @@ FUNS = {
 }
 FID = {name: fid for fid, (name, _) in FUNS.items()}
 
+# module-level names of the implementation that a fine-grained tie reaches
+# into; when a (behaviour-preserving) rewrite removes one, that tie is skipped
+# and the functions built on it (cell_split, block_cards, front ...) still
+# cover the code
+REQUIRES = {
+    'is_comment': [('MIP.mip.cards', 're_comment')],
+    'strip_trailer': [('MIP.mip.main', 're_comment')],
+    'squeeze': [('MIP.mip.main', 're_spaces')],
+    'split_options': [('MIP.mip.cellcard', 're_options')],
+    'void_split': [('MIP.mip.cellcard', 're_void')],
+    'nonvoid_split': [('MIP.mip.cellcard', 're_nonvoid')],
+    'likebut_split': [('MIP.mip.cellcard', 're_likebut')],
+    'has5': [('MIP.mip.cards', 'is_continuation')],
+    'amp_cont': [('MIP.mip.cards', 'is_continuation')],
+    'expand_tabs': [('MIP.mip.cards', 'expand_tabs')],
+}
+
+
+def available(name):
+    import importlib
+    for mod, attr in REQUIRES.get(name, []):
+        if not hasattr(importlib.import_module(mod), attr):
+            return False
+    return True
+
 
 def hstr(s, h):
     for ch in s:
